@@ -124,7 +124,7 @@ class Farm:
 
     def _spawn(self):
         parent, child = self.ctx.Pipe()
-        p = self.ctx.Process(target=_worker, args=(child,) + self.args, daemon=True)
+        p = self.ctx.Process(target=_worker, args=(child,) + self.args, daemon=False)  # non-daemonic: the real-pool cross-check needs children
         p.start()
         child.close()
         return [p, parent, None, 0.0]
